@@ -21,6 +21,7 @@ def run(res, programs, tier):
     for P in programs:
         if "dashu_int" in P.units:
             _r01_4(res, P, P.name)
+            r01_5(res, P, P.name)
     intalg.r01_1(res, programs, "R01.1")
     intalg.r01_2(res, programs, "R01.2", "mul")
     intalg.r_sign_tables(res, programs, "R01.3", intalg.OPS)
@@ -87,6 +88,76 @@ def _r01_4(res, P, cfgname):
             else:
                 res.ok("R01.4", cfgname, key)
     res.floor("R01.4", cfgname, n, 10, "push_resizing call sites")
+
+
+# ---------------------------------------------------------------------------------------------
+# R01.5  a - b computed as -(b - a).  The signed subtraction kernels reuse the longer / owned buffer by
+# swapping the operands of an unsigned subtraction; the result of a *swapped* call must be negated
+# (`.neg()` / `.with_sign(Negative)`), the result of an unswapped call must not.  Each value returned by a
+# function of `add_ops::repr_signed` that is the result of a two-operand subtraction kernel is checked:
+# first operand rooted in the second parameter and second operand in the first  <=>  negated.
+SUB_KERNELS = ("::sub_large", "::sub_large_dword", "::sub_large_ref_val", "::sub_dword")
+
+
+def _argroot(t):
+    from .c17b import strip_bb
+    t = strip_bb(t)
+    while isinstance(t, tuple):
+        if t[0] in ("ref", "refmut", "place"):
+            t = strip_bb(t[1])
+        elif t[0] == "cast":
+            t = strip_bb(t[2])
+        elif t[0] == "call" and t[2]:
+            t = strip_bb(t[2][0])
+        else:
+            break
+    return t[1] if isinstance(t, tuple) and t[0] == "arg" else None
+
+
+def r01_5(res, P, cfgname, rid="R01.5"):
+    from . import mir, sym
+    res.rule(rid, "signed subtraction kernels: the result of an unsigned subtraction with swapped operands is negated, an unswapped one is not (a - b = -(b - a))")
+    n = 0
+    for f in P.fns("dashu_int"):
+        if "add_ops::repr_signed" not in f["p"] or not f.get("mir") or f.get("kind") == "Closure":
+            continue
+        S = sym.Sym(f)
+        du = mir.defuse_of(f["mir"])
+        k = 0
+        for (bb, idx, node) in du.defs.get(0, []):
+            if idx == "t":
+                t = ("call", mir.callee_path(node) or "?", tuple(S.operand(a) for a in node["a"]))
+                sp = node.get("sp", "")
+            else:
+                t = S.rvalue(node["rv"])
+                sp = node.get("sp", "")
+            negated = False
+            x = t
+            # peel neg / with_sign(.., Negative)
+            while isinstance(x, tuple) and x[0] == "call":
+                if x[1].endswith("Repr::neg") and x[2]:
+                    negated = not negated
+                    x = x[2][0]
+                elif x[1].endswith("Repr::with_sign") and len(x[2]) == 2 and "Negative" in sym.term_str(x[2][1], 80):
+                    negated = not negated
+                    x = x[2][0]
+                else:
+                    break
+            if not (isinstance(x, tuple) and x[0] == "call" and x[1].endswith(SUB_KERNELS) and "add_ops" in x[1] and len(x[2]) == 2):
+                continue
+            r0, r1 = _argroot(x[2][0]), _argroot(x[2][1])
+            if r0 is None or r1 is None or r0 == r1:
+                continue
+            k += 1
+            n += 1
+            swapped = r0 > r1
+            key = "%s return #%d (%s)" % (f["p"], k, x[1].rsplit("::", 1)[-1])
+            if swapped == negated:
+                res.ok(rid, cfgname, key, sample=dict(function=f["p"], kernel=x[1].rsplit("::", 1)[-1], swapped=swapped, negated=negated))
+            else:
+                res.fail(rid, cfgname, key, "%s returns %s(%s operands)%s: a - b computed from b - a must be negated, and only then — the result has the wrong sign for the operand shapes that reach this arm" % (
+                    f["p"], x[1].rsplit("::", 1)[-1], "swapped" if swapped else "unswapped", " negated" if negated else " without negation"), mir.span_loc(sp))
+    res.floor(rid, cfgname, n, 14, "subtraction-kernel results returned by the signed kernels")
 
 
 LEVEL = LEVEL + ' Also (R19.2, shared) no arithmetic step of the integer kernels sits inside a debug assertion.'
